@@ -1,3 +1,4 @@
+import Hm.C10Req
 import Hm.C02
 import Hm.C07
 import Hm.C08
@@ -89,3 +90,8 @@ import Hm.Statements
 #print axioms C18_response_framing_case
 #print axioms C01_pinned_false
 #print axioms C01_pinned_witness
+#print axioms C10_request_roundtrip
+#print axioms C10_request_roundtrip_rhymuri
+#print axioms Rhymuri.parse_display_path
+#print axioms Rhymuri.decode_encode
+#print axioms Rhymuri.splitSlash_join
